@@ -92,3 +92,13 @@ Definition codes (s : string) : list N := map Ascii.N_of_ascii (list_ascii_of_st
 
 Definition row_summary (r : lock_row) : list N * list N * bool * bool :=
   (codes (r_type r), codes (r_method r), r_exported r, method_ok r).
+
+(* ---- callbacks handed to the objects at construction (regenerated with the table; see lockscan) ---- *)
+Record cb_row := mk_cb {
+  cb_site : string;       (* file:line of the constructor call *)
+  cb_object : string;     (* which object receives the callbacks *)
+  cb_literals : N;        (* callbacks that are function literals (inspected) *)
+  cb_reentrant : N;       (* calls, from such a literal, on the object being constructed *)
+  cb_external : N         (* callbacks supplied from elsewhere (not inspectable here) *)
+}.
+Definition cb_ok (r : cb_row) : bool := cb_reentrant r =? 0.
